@@ -604,7 +604,11 @@ def genOpsRunCase (seed idx : Nat) : Case := runGen seed idx do
   let ops := ops.eraseDups
   let withAssign ← ops.mapM fun _ => chance 3 5
   let un ← pickW [(2, ([] : List String)), (1, ["Neg"]), (1, ["Not"]), (1, ["Not", "Neg"])]
-  let traits := (ops.zip withAssign).flatMap (fun (o, a) => o.str :: (if a then [o.str ++ "Assign"] else [])) ++ un
+  -- the order in which the traits are listed is free: `SubAssign` before `Sub`, unary ones in between
+  let assignFirst ← ops.mapM fun _ => chance 1 3
+  let traits := ((ops.zip withAssign).zip assignFirst).flatMap (fun ((o, a), sw) =>
+    if a then (if sw then [o.str ++ "Assign", o.str] else [o.str, o.str ++ "Assign"]) else [o.str]) ++ un
+  let traits ← if ← chance 1 4 then pure traits.reverse else pure traits
   let args := argsOfTraits traits
   let generic ← chance 1 3
   let tys ← (List.range n).mapM fun _ => do
